@@ -348,3 +348,13 @@ theorem sum_div_ico (lo hi : ℕ) (a b : ℕ → ℝ) (c : ℝ)
   intro k hk
   rw [Finset.mem_Ico] at hk
   exact h k hk.1 hk.2
+
+/-- `lemma:sum_single` / `lemma:sum_empty`: one-term and empty range sums. -/
+theorem sum_single_ico (lo : ℕ) (a : ℕ → ℝ) :
+    ∑ k ∈ Finset.Ico lo (lo + 1), a k = a lo := by
+  simp
+
+theorem sum_empty_ico (lo hi : ℕ) (a : ℕ → ℝ) (h : hi ≤ lo) :
+    ∑ k ∈ Finset.Ico lo hi, a k = 0 := by
+  rw [Finset.Ico_eq_empty_of_le h]
+  simp
